@@ -158,7 +158,7 @@ def run(ck, prog, ctx):
             # the write sits in a shared private helper selected by an InformationContentKind constant: `self.set_kind(InformationContentKind::Gene, ..)`
             sel = sorted({st.rv.get("variant") for _, st in sb.stmts() if st.k == "assign" and st.rv and st.rv["k"] == "agg" and (st.rv.get("adt") or "").endswith("InformationContentKind")} |
                          {a.const.get("variant") for _, t_ in sb.calls() for a in t_.args if a.kind == "const" and (a.const.get("adt") or a.const.get("ty") or "").endswith("InformationContentKind") and a.const.get("variant")})
-            helpers = [t_ for _, t_ in sb.calls() if (t_.callee.res or "") in prog.bodies and not (prog.bodies[t_.callee.res].exported or prog.bodies[t_.callee.res].reachable)]
+            helpers = [t_ for _, t_ in sb.calls() if (t_.callee.res or "") in prog.bodies and (not (prog.bodies[t_.callee.res].exported or prog.bodies[t_.callee.res].reachable) or (prog.bodies[t_.callee.res].impl_self or {}).get("adt") == IC)]
             if helpers and sel:
                 ck.ob("KIND", "setter/%s/field" % setter, sel == [K], "%s delegates the write to %s, selecting the kind %s (expected %s)" % (setter, prog.bodies[helpers[0].callee.res].short, "/".join(sel), K), where=sb.where())
             elif helpers:
